@@ -16,3 +16,4 @@ CFG = {
                        ('served:upper-case-path', 1), ('served:upper-case-path:go.mod', 1), ('skipped-private-path', 1), ('skipped-only-client-silent', 1), ('porcupine:ok', 1), ('race_detector_enabled', 1)]},
     'assumptions': ['the deterministic gosum function defines the expected go.sum lines', 'porcupine v1.3.0 decides linearizability of the recorded histories correctly'],
 }
+CFG['level_text'] += ' The private-module pattern list is one of six equivalent lists (malformed and empty elements, character classes, a trailing slash), each confirmed by the harness\'s own reading of the documented matching; module versions include ones ending in letters of "/go.mod".'
